@@ -680,6 +680,14 @@ impl<'a, 'b, 'c> Node<'a, 'b, 'c> {
 		self.set_channel_signer_ops(peer_id, chan_id, signer_op, false);
 	}
 
+	/// Same as `disable_channel_signer_op`, available to the verification harness (feature `_verif`).
+	#[cfg(feature = "_verif")]
+	pub fn verif_disable_channel_signer_op(
+		&self, peer_id: &PublicKey, chan_id: &ChannelId, signer_op: SignerOp,
+	) {
+		self.set_channel_signer_ops(peer_id, chan_id, signer_op, false);
+	}
+
 	/// Changes the channel signer's availability for the specified peer, channel, and signer
 	/// operation.
 	///
